@@ -38,7 +38,6 @@ var blockTypes = []string{"blk", "resource", "x", "for", "dynamic", "b-c", "Ω",
 var labelPool = []string{"l", "", "a b", "quo\"te", "new\nline", "${x}", "%{y}", "ü", "back\\slash", "tab\there", "l2", "$$", "a${b}c", "l3", "\U000E0001", "nul\x00l", "😀 emoji"}
 
 // labels whose literal text contains an escaped-looking template introducer
-// (known finding K1): generated rarely
 var rareLabels = []string{"$${z", "%%{"}
 var exprPool = []string{
 	`1`, `"s"`, `true`, `null`, `-2.5e3`, `x`, `x.y`, `x.y[0]`, `x["k"].z`, `x.*.y`, `x[*].y.z`, `x.0`, `x.0.y`,
@@ -363,7 +362,7 @@ func genRaw(r *rnd, d int) *RawB {
 }
 
 func genLabel(r *rnd) string {
-	if r.chance(1, 150) {
+	if r.chance(1, 12) {
 		return rareLabels[r.n(len(rareLabels))]
 	}
 	return labelPool[r.n(len(labelPool))]
